@@ -1,6 +1,12 @@
 #!/bin/bash
 # usage: agent_prompt.sh C01
 ID=$1
+[ -f /tmp/prop-$ID.txt ] || /venv/bin/python - <<'PY'
+import json
+for l in open('/verif/properties.jsonl'):
+    p=json.loads(l)
+    open(f"/tmp/prop-{p['id']}.txt","w").write(f"{p['id']} — {p['title']}\n\nStatement: {p['statement']}\n\nQuantifier: {p['quantifier']['text']}\n\nWhy tests cannot settle it: {p['why_tests_cant']}\n\nAnchor files: {', '.join(p['anchors']['files'])}\n")
+PY
 cat <<EOF
 You are helping test a verification framework by producing realistic faulty variants ("seeded bugs") of a Python library. Work ONLY inside the git worktree /tmp/wt-$ID (a checkout of the library Pabloo22/job_shop_lib, a pure-Python job shop scheduling library). Do not touch /repo, do not look at /verif (it is off limits), and do not create other worktrees.
 
